@@ -555,9 +555,12 @@ Proof. induction w as [|x w IH]; cbn; [reflexivity|]. rewrite Z.eqb_refl. exact 
 Lemma parse_cfg_limit : forall w c, parse_cfg w = Some c -> 0 <= limit c <= max_i64.
 Proof.
   intros w c H. unfold parse_cfg in H.
-  destruct w as [|l [|s0 [|d [|k [|e [|x t]]]]]]; try discriminate.
-  destruct ((0 <=? l) && (l <=? max_i64) && (0 <=? d) && (0 <=? k) && (0 <=? e)) eqn:E; [|discriminate].
-  inversion H; subst; cbn [limit]. rewrite !andb_true_iff in E. lia.
+  destruct w as [|l [|s0 [|d [|k [|e [|x [|y t]]]]]]]; try discriminate.
+  - destruct ((0 <=? l) && (l <=? max_i64) && (0 <=? d) && (0 <=? k) && (0 <=? e)) eqn:E; [|discriminate].
+    inversion H; subst; cbn [limit]. rewrite !andb_true_iff in E. lia.
+  - destruct ((0 <=? l) && (l <=? max_i64) && (0 <=? d) && (0 <=? k) && (0 <=? e) &&
+              ((x =? 0) || ((x =? 1) && (s0 =? 0) && (d =? 0)))) eqn:E; [|discriminate].
+    inversion H; subst; cbn [limit]. rewrite !andb_true_iff in E. lia.
 Qed.
 
 Lemma pulled_obs_bound : forall c r n B, 0 <= n <= B -> 0 <= pulled_obs c r n <= B.
@@ -566,30 +569,68 @@ Proof.
   destruct ((dcKind c =? 1) && (code =? cInternal)); lia.
 Qed.
 
-Lemma ops_hold : forall dec c, 0 <= limit c <= max_i64 -> forall os r s i, rel r s ->
+Lemma res_obs_e_shape : forall e x, exists k code len ck, res_obs_e e x = [k; code; len; ck].
+Proof. intros e x. destruct x; destruct e; cbn; eauto 8. Qed.
+
+Lemma ops_hold : forall e dec c, 0 <= limit c <= max_i64 -> forall os stopped r s i, rel r s ->
   forallb (fun x => is_finding_clause x || snd x)
-    (clauses_from c i (spec_ops dec c s os) (run_ops dec c r os)) = true.
+    (clauses_from e c i (spec_ops e stopped dec c s os) (run_ops e stopped dec c r os)) = true.
 Proof.
-  intros dec c Hl. induction os as [|o os IH]; intros r s i R; [reflexivity|].
+  intros e dec c Hl. induction os as [|o os IH]; intros stopped r s i R; [reflexivity|].
   destruct o as [b| |p d].
   - cbn [spec_ops run_ops clauses_from forallb]. cbn [word_eqb snd orb]. rewrite orb_true_r. cbn [andb].
-    apply IH. destruct R as [R1 [R2 R3]]. unfold rel; cbn. rewrite concat_app. cbn. rewrite app_nil_r.
+    apply IH. destruct e; [exact R|].
+    destruct R as [R1 [R2 R3]]. unfold rel; cbn. rewrite concat_app. cbn. rewrite app_nil_r.
     rewrite R1. auto.
-  - cbn [spec_ops run_ops].
+  - cbn [spec_ops run_ops]. destruct (e && stopped) eqn:ES.
+    { cbn [clauses_from forallb]. cbn [word_eqb snd orb]. rewrite orb_true_r. cbn [andb]. apply IH. exact R. }
     destruct (recv_refines dec c r s R) as [r' [H1 [H2 [H3 H4]]]]. rewrite H1.
     unfold spec_recv in *. destruct (spec_parse (limit c) s) as [pp s'] eqn:P. cbn [fst snd] in *.
     destruct (after_parse dec c pp) as [x n] eqn:A.
-    cbn [clauses_from]. unfold recv_obs. cbn [fst snd].
-    assert (Hshape: exists k code len ck, res_obs x = [k; code; len; ck])
-      by (destruct x; cbn; eauto 8).
-    destruct Hshape as [k [code [len [ck Hs]]]]. rewrite Hs. cbn [app].
-    cbn [forallb]. rewrite word_eqb_refl. cbn [snd]. rewrite orb_true_r. cbn [andb].
+    cbn [clauses_from fst snd].
+    assert (Hobs: exists k code len ck pulled pos,
+              recv_obs_e e c (x, n) (r_pos r') = [k; code; len; ck; pulled; pos] /\
+              res_obs_e e x = [k; code; len; ck] /\ 0 <= pulled /\
+              (limit c < max_i64 -> bounded_path c = true -> pulled <= limit c + 1)).
+    { unfold recv_obs_e, recv_obs. cbn [fst snd]. destruct e.
+      - destruct (res_obs_e_shape true x) as [k [code [len [ck Hs]]]]. rewrite Hs. cbn [app].
+        exists k, code, len, ck, 0, 0. repeat split; auto; lia.
+      - assert (Hs': res_obs_e false x = res_obs x) by (destruct x; reflexivity).
+        destruct (res_obs_e_shape false x) as [k [code [len [ck Hs]]]]. rewrite Hs' in *. rewrite Hs. cbn [app].
+        exists k, code, len, ck, (pulled_obs c x n), (r_pos r'). split; [reflexivity|]. split; [reflexivity|].
+        assert (G: forall B, (0 <= n <= B) -> 0 <= pulled_obs c x n <= B) by (intros; apply pulled_obs_bound; auto).
+        split.
+        + destruct (bounded_path c) eqn:Eb.
+          * destruct (Z_lt_dec (limit c) max_i64) as [L|L].
+            -- pose proof (materialise_bound_step dec c pp ltac:(lia) Eb) as MB. rewrite A in MB. cbn [snd] in MB.
+               apply (G _ MB).
+            -- assert (0 <= n).
+               { pose proof (f_equal snd A) as A'. cbn [snd] in A'. subst n.
+                 unfold after_parse. destruct pp as [pf d0|e0]; [|cbn; lia].
+                 destruct (checkRecvPayload _ _ _ _); [cbn; lia|]. destruct (pf =? 1); [|cbn; lia].
+                 unfold decompress. assert (G0: forall b d1, 0 <= snd (dec_run b (limit c) d1)).
+                 { intros b d1. unfold dec_run. destruct d1 as [|ct ok]; cbn [snd]; [lia|].
+                   destruct (negb ok && _); [cbn [snd]; apply blen_nonneg|]. destruct (_ >? limit c); cbn [snd]; apply blen_nonneg. }
+                 destruct (negb (dcKind c =? 0)); [apply G0|]. destruct (negb (compKind c =? 0)); [apply G0|cbn; lia]. }
+               apply (G n). lia.
+          * assert (0 <= n).
+            { pose proof (f_equal snd A) as A'. cbn [snd] in A'. subst n.
+              unfold after_parse. destruct pp as [pf d0|e0]; [|cbn; lia].
+              destruct (checkRecvPayload _ _ _ _); [cbn; lia|]. destruct (pf =? 1); [|cbn; lia].
+              unfold decompress. assert (G0: forall b d1, 0 <= snd (dec_run b (limit c) d1)).
+              { intros b d1. unfold dec_run. destruct d1 as [|ct ok]; cbn [snd]; [lia|].
+                destruct (negb ok && _); [cbn [snd]; apply blen_nonneg|]. destruct (_ >? limit c); cbn [snd]; apply blen_nonneg. }
+              destruct (negb (dcKind c =? 0)); [apply G0|]. destruct (negb (compKind c =? 0)); [apply G0|cbn; lia]. }
+            apply (G n). lia.
+        + intros L Eb. pose proof (materialise_bound_step dec c pp ltac:(lia) Eb) as MB. rewrite A in MB. cbn [snd] in MB.
+          apply (G _ MB). }
+    destruct Hobs as [k [code [len [ck [pulled [pos [O1 [O2 [O3 O4]]]]]]]]]. rewrite O1, O2.
+    cbn [forallb app]. rewrite word_eqb_refl. cbn [snd]. rewrite orb_true_r. cbn [andb].
     rewrite forallb_app. apply andb_true_iff. split; [|apply IH; unfold rel; auto].
     unfold mat_clause. destruct (limit c <? max_i64) eqn:Em; [|reflexivity].
     destruct (bounded_path c) eqn:Eb.
-    + pose proof (materialise_bound_step dec c pp ltac:(lia) Eb) as MB. rewrite A in MB. cbn [snd] in MB.
-      pose proof (pulled_obs_bound c x n _ MB).
-      cbn [forallb snd fst is_finding_clause]. replace (pulled_obs c x n <=? limit c + 1) with true by lia.
+    + cbn [forallb snd fst is_finding_clause].
+      replace (pulled <=? limit c + 1) with true by (assert (pulled <= limit c + 1) by (apply O4; [lia|reflexivity]); lia).
       rewrite orb_true_r. reflexivity.
     + destruct (2 <=? dcKind c); reflexivity.
   - cbn [spec_ops run_ops clauses_from forallb]. cbn [word_eqb snd orb]. rewrite orb_true_r. cbn [andb].
@@ -604,7 +645,29 @@ Proof.
   destruct (parse_ops ops) as [os|] eqn:Po; [|discriminate].
   pose proof H as H'. unfold oracle_ok in H'. cbv zeta in *. rewrite H'.
   eexists. split; [reflexivity|]. rewrite H.
-  apply ops_hold; [exact (parse_cfg_limit _ _ Pc)|]. unfold rel, r0, s0; cbn. auto.
+  apply ops_hold; [exact (parse_cfg_limit _ _ Pc)|].
+  unfold rel, r_init, s_init, r0, s0. destruct (parse_path cfg); cbn; auto.
+Qed.
+
+(* end-to-end path: the client's results are the specification's results on the whole
+   concatenated DATA stream, whatever the split into DATA frames *)
+Theorem e2e_segmentation : forall dec c os1 os2 stopped,
+  concat (chunks_of os1) = concat (chunks_of os2) ->
+  forall k, run_ops true stopped dec c (r_init true os1) (repeat ORecv k) =
+            run_ops true stopped dec c (r_init true os2) (repeat ORecv k).
+Proof.
+  intros dec c os1 os2 stopped H k. unfold r_init.
+  assert (G: forall k stopped r1 r2 s, rel r1 s -> rel r2 s ->
+             run_ops true stopped dec c r1 (repeat ORecv k) = run_ops true stopped dec c r2 (repeat ORecv k)).
+  { induction k0 as [|k0 IH]; intros st r1 r2 s R1 R2; [reflexivity|].
+    cbn [repeat run_ops]. destruct (true && st) eqn:E; [f_equal; eapply IH; eauto|].
+    destruct (recv_refines dec c r1 s R1) as [r1' [A1 A2]].
+    destruct (recv_refines dec c r2 s R2) as [r2' [B1 B2]]. rewrite A1, B1.
+    destruct (spec_recv dec c s) as [[x n] s']. cbn [fst snd] in *.
+    unfold recv_obs_e. f_equal. eapply IH; eauto. }
+  apply G with (s := mkF (concat (chunks_of os1)) false 0).
+  - apply rel_init.
+  - rewrite H. apply rel_init.
 Qed.
 
 (* the refuted clause is false on the model's own trace of the witness *)
